@@ -18,3 +18,8 @@ mod escape;
 mod js_bindings;
 mod path;
 mod proc_gen;
+
+/// Access to crate-private functions for the external verification harness.
+/// Compiled only with `RUSTFLAGS="--cfg glass_easel_verif"`.
+#[cfg(glass_easel_verif)]
+pub mod verif_hooks;
